@@ -38,7 +38,15 @@ pub mod tn {
 
     // ---- backends, devices, shapes ------------------------------------------------------
     pub trait DeviceDefault: Sized { fn default() -> Self; }
-    pub trait Backend: Sized { type Device: DeviceDefault; }
+    /// `float_is_f32`: the backend's float element type is f32 (NdArray<f32>) rather than f64 (NdArray<f64>)
+    pub trait Backend: Sized { type Device: DeviceDefault; spec fn float_is_f32() -> bool; }
+    /// the sampler's own scalar type parameter `T` (erased to Fl in the units) is f32 rather than f64 — an arbitrary
+    /// boolean, independent of the backend's: every (T, backend float) combination is inside the quantifier
+    pub uninterp spec fn scalar_is_f32() -> bool;
+    pub trait ElemTag: Sized { spec fn tag_f32() -> bool; }
+    impl ElemTag for Fl { open spec fn tag_f32() -> bool { scalar_is_f32() } }
+    pub struct DataError;
+    impl core::fmt::Debug for DataError { #[verifier::external_body] fn fmt(&self, f: &mut core::fmt::Formatter<'_>) -> core::fmt::Result { Ok(()) } }
     pub trait AutodiffBackend: Backend { type InnerBackend: Backend; }
     pub struct Float;
     pub struct Bool;
@@ -53,15 +61,49 @@ pub mod tn {
         }
     }
     /// `TensorData::new(values, shape)`: row-major values with a shape (burn panics unless the element count matches)
-    pub struct TensorData { pub ghost flat: Seq<Fl>, pub ghost shape: Seq<usize> }
+    pub struct TensorData { pub ghost flat: Seq<Fl>, pub ghost shape: Seq<usize>, pub ghost is_f32: bool }
     impl TensorData {
+        /// `iter::<E>()`: the elements converted to E, in order (never fails); only the count is tracked
+        #[verifier::external_body]
+        pub fn iter(&self) -> (r: TdIter) ensures tdi_len(r) == self.flat.len() { unimplemented!() }
+        /// `as_slice::<E>()`: Err(TypeMismatch) unless E is the stored element type
+        #[verifier::external_body]
+        pub fn as_slice<E: ElemTag>(&self) -> (r: Result<&[E], DataError>)
+            ensures (r is Ok) == (E::tag_f32() == self.is_f32), r is Ok ==> r->Ok_0@.len() == self.flat.len()
+        { unimplemented!() }
+        /// `convert::<E>()`: the same values converted to element type E
+        #[verifier::external_body]
+        pub fn convert<E: ElemTag>(self) -> (r: TensorData)
+            ensures r.is_f32 == E::tag_f32(), r.flat.len() == self.flat.len(), r.shape == self.shape
+        { unimplemented!() }
         #[verifier::external_body]
         pub fn new<const D: usize>(values: Vec<Fl>, shape: [usize; D]) -> (r: TensorData)
             requires D == 1 ==> values@.len() == shape@[0], D == 2 ==> values@.len() == shape@[0] * shape@[1]
-            ensures r.flat == values@, r.shape == shape@
+            ensures r.flat == values@, r.shape == shape@, r.is_f32 == scalar_is_f32()
         { unimplemented!() }
     }
 
+    #[verifier::external_body]
+    pub struct TdIter { _p: u8 }
+    pub uninterp spec fn tdi_len(i: TdIter) -> int;
+    #[verifier::external_body]
+    #[verifier::reject_recursive_types(F)]
+    pub struct TdMap<F> { _f: core::marker::PhantomData<F> }
+    pub uninterp spec fn tdm_len<F>(i: TdMap<F>) -> int;
+    impl TdIter {
+        #[verifier::external_body]
+        pub fn map<F: Fn(Fl) -> Fl>(self, f: F) -> (r: TdMap<F>)
+            requires forall |x: Fl| #[trigger] f.requires((x,))
+            ensures tdm_len(r) == tdi_len(self)
+        { unimplemented!() }
+    }
+    impl<F: Fn(Fl) -> Fl> TdMap<F> {
+        #[verifier::external_body]
+        pub fn collect(self) -> (r: Vec<Fl>) ensures r@.len() == tdm_len(self) { unimplemented!() }
+    }
+    /// `burn::tensor::ToElement::to_f32`
+    pub trait ToElement: Sized { fn to_f32(&self) -> Fl; }
+    impl ToElement for Fl { #[verifier::external_body] fn to_f32(&self) -> Fl { unimplemented!() } }
     pub trait IntoTensorData: Sized { spec fn td_flat(self) -> Seq<Fl>; spec fn td_shape(self) -> Seq<usize>; }
     impl IntoTensorData for TensorData {
         open spec fn td_flat(self) -> Seq<Fl> { self.flat }
@@ -120,6 +162,11 @@ pub mod tn {
         { unimplemented!() }
         #[verifier::external_body]
         pub fn clone(&self) -> (r: Self) ensures r == *self { unimplemented!() }
+        /// `to_data()`: the values in the backend's float element type, row-major
+        #[verifier::external_body]
+        pub fn to_data(&self) -> (r: TensorData)
+            ensures r.is_f32 == B::float_is_f32(), D == 2 ==> r.flat.len() == tdim2(*self).0 * tdim2(*self).1, D == 1 ==> r.flat.len() == v1(*self).len()
+        { unimplemented!() }
         /// `from_data(TensorData::new(values, [n, d]), dev)` (row-major) or `from_data(slice, dev)` (1-D)
         #[verifier::external_body]
         pub fn from_data<X: IntoTensorData>(x: X, dev: &B::Device) -> (r: Self)
